@@ -32,16 +32,17 @@ BUILT = {
               "every word up to the scenario depth over alphabets covering every token class, command and tag (with and without require), every nested test "
               "expression to depth 3/4, every tag subset and order of every command, every single-token edit of the valid forms, every comment body up to "
               "a length, every require structure (one or two require commands, repeated / padded / case-variant / unknown names) before each "
-              "extension use, scripts of n trivial commands around every power of two and ten in size, all under several layouts, is executed on the real Parser and judged by an independent RFC 5228 recogniser + frozen table; the "
+              "extension use, scripts of n trivial commands around every power of two and ten in size, every single-byte edit of a 15-script corpus, all under several layouts, is executed on the real Parser and judged by an independent RFC 5228 recogniser + frozen table; the "
               "state abstraction is audited by an undeduplicated one-step bisimulation run", _PARSER_NOTE, "3 C01, 8"),
     "C02": _b(P, "explicit-state BFS + exhaustive byte-edit neighbourhoods + pumped families + reuse differential; step-budget and watchdog oracle",
-              "every explored word, every single-byte edit / truncation of a corpus (bytes, str, parse_file; fresh and reused parser), pumped families to "
+              "every explored word, every single-byte edit / truncation of a corpus (bytes, str, parse_file; fresh and reused parser), pumped families (plain and behind a require) to "
               "2^13/2^16 and every accepted form re-parsed on a parser left dirty by a refused script must end in True/False within 3*len+16 lexer steps, "
               "never raise, and carry a well-formed error / error_pos / result", _PARSER_NOTE + "; time inside one regex match is only caught by the watchdog", "3 C02"),
     "C03": _b(P, "explicit-state BFS + grammar-directed products; token-conservation and tree-equality oracle vs reference generic tree; reuse differential",
               "for every accepted word the canonical tree of Parser.result must contain exactly the source's tokens (position-unique values) and equal the tree "
               "built by the independent RFC 5228 section 8.2 recogniser; the same tree must come out of a reused parser; quoting-edge value products "
-              "(incl. separators only str.splitlines knows); size ladder through parse(bytes/str) and parse_file: the result holds all n commands", _PARSER_NOTE, "3 C03"),
+              "(incl. separators only str.splitlines knows); size ladder through parse(bytes/str) and parse_file: the result holds all n commands; every schedule with <= 2/3 preemptions "
+              "of 2-3 overlapping parse() calls on distinct Parser objects (mc/interleave.py) gives the trees of the scripts parsed alone", _PARSER_NOTE, "3 C03"),
     "C04": _b(P, "explicit-state BFS accepted states + exhaustive products of quoting-edge values x slot kinds + valid forms (also upper-case, repeated slots); print/re-parse/re-print oracle",
               "every accepted word, every generated valid or irregular-but-accepted form and every string of length <= 3/4 over a quoting alphabet (every "
               "multi-line body of <= 2/3 lines) in every slot kind is serialised with tosieve(), re-parsed (tree equality) and re-serialised (byte fixed point)",
@@ -52,7 +53,7 @@ BUILT = {
               _WIRE_NOTE, "3 C05"),
     "C06": _b(F, "exhaustive product of definition kinds x hostile values + explicit-state BFS over editing histories; reference strict validator and structure-preservation oracle",
               "every condition/action kind (all fileinto tag orders, all vacation tag subsets, numeric boundary values) x every value up to the length bound and values shaped like Sieve syntax "
-              "(text: literals with inner terminators, tags, numbers, comments); "
+              "(text: literals with inner terminators, tags, numbers, comments) and long values at every 2^k-1/2^k/2^k+1; "
               "the script must be accepted, strictly valid, begin with a covering require, and keep the structure of the benign-value script with every "
               "literal decoding to the supplied value; histories over a rich pool for the require line", _FACTORY_NOTE, "3 C06"),
     "C07": _b(P, "explicit-state BFS incl. no-require scenarios + valid-form products; independent walk with frozen extension table + exhaustive require-removal re-runs (fresh and reused parser)",
@@ -60,19 +61,19 @@ BUILT = {
               "parser and on one that has just accepted the full script, and must be rejected with the exact 'extension not loaded' message", _PARSER_NOTE, "3 C07"),
     "C08": _b(W, "exhaustive product of operations x hostile argument strings + sweep of every argument length; strict RFC 5804 command parser on the captured bytes",
               "every string up to the length bound over a hostile alphabet plus look-alikes in every argument position (incl. unencodable lone surrogates: refused with nothing written) and every argument length in "
-              "0..9000/70000, plain and with characters that need escaping; the bytes written must parse as exactly one command of the intended verb decoding to the caller's values", _WIRE_NOTE, "3 C08"),
+              "0..9000/70000, plain and with characters that need escaping; pairs of calls in one process (a body, then a name equal to its literal encoding, and the reverse); the bytes written must parse as exactly one command of the intended verb decoding to the caller's values", _WIRE_NOTE, "3 C08"),
     "C09": _b(W, "exhaustive product of operations x status reply shapes, ordered pairs of replies on one client, single NO/BYE fault at each step of multi-step operations",
-              "every operation x every status reply shape; every pair of shapes on the same client; NO/BYE at each step of connect (with/without STARTTLS) and "
+              "every operation x every status reply shape; every pair of shapes on the same client; status lines at the size limits of their parts under segmentation; NO/BYE at each step of connect (with/without STARTTLS) and "
               "emulated rename; result, errcode, errmsg, unread bytes and exception class are judged against the reply", _WIRE_NOTE, "3 C09"),
-    "C10": _b(W, "exhaustive call histories over the introspected public API x handshake fault placements x capability sets (incl. DIGEST-MD5) x handshake OK forms x completion with/without SASL final data; monitor automaton over plain/TLS write logs",
+    "C10": _b(W, "exhaustive call histories over the introspected public API x handshake fault placements x capability sets (incl. DIGEST-MD5 and look-alike names) x handshake OK forms x completion with/without SASL final data; monitor automaton over plain/TLS write logs",
               "every public method before connect, after connect and after a second connect (failing in 8 ways), under every single and pair of handshake "
               "faults, TLS wrap failure, capability set and OK-line form; no script verb without AUTHENTICATE OK on that connection, no AUTHENTICATE before "
               "TLS, mechanism from the post-TLS list", _WIRE_NOTE, "3 C10"),
     "C11": _b(F, "explicit-state BFS over editing histories + exhaustive product of names/descriptions x marker pairs; save/load differential",
-              "every reachable set (history depth bound) and every name/description up to the length bound under 4 marker pairs (one non-ASCII) is "
+              "every reachable set (history depth bound; loaded through a fresh and through a just-failed Parser) and every name/description up to the length bound under 4 marker pairs (one non-ASCII) is "
               "rendered, parsed, reloaded and compared; the reloaded rendering must be a fixed point", _FACTORY_NOTE, "3 C11"),
     "C12": _b(F, "all operation sequences up to a bound without dedup + BFS with dedup over the real FiltersSet vs reference list model",
-              "every sequence of <= 3/4 of 66 events (str and bytes names, contents that are bare parsed actions) and a deduplicated BFS to depth 6/12; after every event return value, order, "
+              "every sequence of <= 3/4 of 66 events (str and bytes names, contents that are bare parsed actions) and a deduplicated BFS to depth 6/12, the same events on a set sharing its parse result with an untouched twin; after every event return value, order, "
               "flags, is_filter_disabled, filter_exists, wrapper structure and getfilter content are compared with the list model", _FACTORY_NOTE, "3 C12"),
     "C13": _b(P, "exhaustive histories over an object pool; differential vs pristine forked interpreters",
               "every history of <= 3/4 events on two reused parsers, fresh parsers and two FiltersSets (incl. from_parser_result on the shared parser, "
@@ -80,26 +81,26 @@ BUILT = {
               _FACTORY_NOTE, "3 C13"),
     "C14": _b(W, "exhaustive product of initial stores x name sets x fault placements x bodies against an executable reference server; store-level invariant",
               "19 initial stores x 7 bodies x 3 name sets (ASCII, NFC/NFD twins, case twins) x every single and pair of faults on the five verbs of the "
-              "emulation x four wordings of the server's completions; the reference server's store before/after is judged (nothing lost, nothing else touched, True implies renamed)", _WIRE_NOTE, "3 C14"),
+              "emulation x four wordings of the server's completions, every single recv cut in the first 170/400 reply bytes with quoted / literal names; the reference server's store before/after is judged (nothing lost, nothing else touched, True implies renamed)", _WIRE_NOTE, "3 C14"),
     "C15": _b(W, "explicit-state BFS over operation histories (state = reference server store) x deviation-bounded DFS over server choices and recv cuts",
               "all histories of 19 events (incl. a 1024-octet name with quotes) to depth 3/4 from 4 stores with and without VERSION; every server choice (encodings, status text forms, quota/NO "
-              "outcomes, recv cuts) up to 1/2 deviations; each result must equal the reference server's own answer, a reported success must be true of its store, no unread bytes, no protocol violation",
+              "outcomes, recv cuts incl. between CR and LF) up to 1/2 deviations; a second client object working between the steps; returned lists edited by the caller; each result must equal the reference server's own answer, a reported success must be true of its store, no unread bytes, no protocol violation",
               _WIRE_NOTE, "3 C15"),
     "C16": _b(W, "exhaustive product of announced SASL lists x authmech x credentials x verdict x challenge realm; payload decoded and recomputed per mechanism RFC",
-              "all subsets/orders of 7 mechanism names x 7 authmech arguments x 8 credential triples x OK/NO x completion with/without SASL final data, DIGEST-MD5 with and without realm alternating "
+              "all subsets/orders of 7 mechanism names x 7 authmech arguments x 8 credential triples x OK/NO x completion with/without SASL final data, every credential length 0..160/1300, DIGEST-MD5 with and without realm alternating "
               "in one process; selection rule, decoded PLAIN/LOGIN/OAUTHBEARER payloads and the recomputed RFC 2831 response are compared", _WIRE_NOTE, "3 C16"),
     "C17": _b(W, "exhaustive product of look-alike bodies / name sets x every permitted encoding + read-size boundary sweep against the reference server's store",
               "every body of <= 3/4 lines over the look-alike pool x line endings x final newline x literal/quoted; every set of <= 3/4 names x active "
-              "position x every per-name encoding; replies aligned at every offset around the 4096-byte read size; names with k escaped characters for every k <= 64/512", _WIRE_NOTE, "3 C17"),
+              "position x every per-name encoding; replies aligned at every offset around the 4096-byte read size; names with k escaped characters for every k <= 64/512; ACTIVE marker in three letter cases", _WIRE_NOTE, "3 C17"),
     "C18": _b(P, "explicit-state BFS and single-token edits under position-rich layouts; reference first-invalid-token positions + suffix re-runs",
               "every rejected word / edited script is rendered in layouts mixing LF/CRLF, comments and multi-byte text; reported line / error_pos are compared "
               "with the reference's first invalidating token (exact for tokens wrong in themselves, lower bound otherwise) and must not change under 4 suffixes nor on a parser that has just refused another script",
               _PARSER_NOTE, "3 C18"),
     "C19": _b(F, "exhaustive product of supported forms x values with commas/spaces/brackets/non-ASCII; read-back differential on original / disabled / reloaded sets and after update-rename",
-              "every supported condition and action form (incl. duplicates, list + plain-string address arguments) x every value up to the length bound x anyof/allof; get_filter_conditions/"
+              "every supported condition and action form (incl. duplicates, list + plain-string address arguments, long values, results edited in place by the caller) x every value up to the length bound x anyof/allof; get_filter_conditions/"
               "actions/matchtype must equal what was supplied on the original, the disabled and the reloaded set", _FACTORY_NOTE, "3 C19"),
     "C20": _b(P, "exhaustive product of generated argument definitions x explicit-state BFS over each definition's alphabet vs reference PDA built from the same definition; re-registration and derived-class sequences",
-              "every definition of the documented shape within the bounds is registered with add_commands under a fresh name (some containing the word 'command'); all uses up to the depth are "
+              "every definition of the documented shape within the bounds is registered with add_commands under a fresh name (some containing the word 'command') through every call shape (class, list, tuple, set, generator, iterator); all uses up to the depth are "
               "judged (accept exactly the allowed uses, arguments under the defined names, round trip, sibling stays unknown); names re-registered with "
               "another definition and classes derived from registered ones must follow their own definition", _PARSER_NOTE, "3 C20"),
 }
